@@ -9,6 +9,7 @@ import Dsi.IOView
 import Dsi.Impl.Copy
 import Dsi.Impl.BitReader
 import Dsi.Spec
+import Dsi.Glue.Wrappers
 namespace Dsi
 
 /-! ### text helpers -/
@@ -65,7 +66,9 @@ structure Mach (ω ρ : Type) where
   copyFrom : ω → ρ → Nat → Res (ρ × ω)
   noOneAhead : ρ → Bool     -- zero-extended and no one bit ahead: a unary read would not return
   ioChunk  : Nat            -- chunk size used by `io::Write`
-  stat     : ρ → String     -- fidelity-level observation (L3 only; "-" on the reference)
+  stat     : ω → ρ → String -- wrapper counters (`bw=… br=…`), "- -" without a counting wrapper
+  /-- read a code by name; `none` = unknown name -/
+  rcode    : ρ → String → String → Nat → Option (Res (Nat × ρ))
   /-- write a code by name; `none` = unknown name -/
   wcode    : ω → String → String → Nat → Nat → Option (Res (Nat × ω))
 
@@ -174,12 +177,12 @@ def sessStep {ω ρ} (M : Mach ω ρ) (s : Sess ω ρ) (op : List String) : Stri
   | ["rc", code, flags, p] =>
     match num? p with
     | some p =>
-      match readProg M.e code flags p with
-      | some prog =>
-        if M.noOneAhead s.r && !(code == "omega" || code == "minbin" || code == "vbbe" || code == "vble")
-        then ("loop", none)
-        else rres (prog.run M.ri s.r)
-      | none => bad
+      if M.noOneAhead s.r && !(code == "omega" || code == "minbin" || code == "vbbe" || code == "vble")
+      then ("loop", none)
+      else
+        match M.rcode s.r code flags p with
+        | some r => rres r
+        | none => bad
     | _ => bad
   | ["rio", n] =>
     match num? n with
@@ -202,7 +205,7 @@ def sessStep {ω ρ} (M : Mach ω ρ) (s : Sess ω ρ) (op : List String) : Stri
     | _ => bad
   | ["clone"] => ("ok", some { s with r2 := s.r })
   | ["swap"] => ("ok", some { s with r := s.r2, r2 := s.r })
-  | ["stat"] => (M.stat s.r, some s)
+  | ["stat"] => (M.stat s.w s.r, some s)
   | ["reopen"] => ("ok", some { s with r := M.mkReader (M.dump s.w), r2 := M.mkReader (M.dump s.w) })
   | ["ct", n] =>
     match num? n with
@@ -309,7 +312,8 @@ def machL3 (e : Endian) (ww rw : Nat) (bitReader strict checks : Bool) (cap : Op
       if specialisedCopy then BufW.copyFrom e ri w r n else copyGeneric ri wi (n / 64 + 2) r w n,
     noOneAhead := fun r => !r.isStrict && !((r.allBits e).drop r.pos).any id,
     ioChunk := ioChunk,
-    stat := RState.stat,
+    stat := fun _ _ => "- -",
+    rcode := fun r code flags p => (readProg e code flags p).map fun prog => prog.run ri r,
     wcode := fun w code flags p v => (writeProg e checks code flags p v).map fun prog => prog.run wi w }
 
 /-- L1 machine: the reference. -/
@@ -347,7 +351,8 @@ def machL1 (e : Endian) (ww rw : Nat) (bitReader strict checks : Bool) (cap : Op
       else .err .eof,
     noOneAhead := fun r => !r.strict && !(r.rest.any id),
     ioChunk := 8,
-    stat := fun _ => "-",
+    stat := fun _ _ => "- -",
+    rcode := fun r code flags p => (readProg e code flags p).map fun prog => prog.run RefR.impl r,
     -- the reference writes the *published* codeword (Dsi.Spec) wherever the implemented writer
     -- program accepts the arguments (its panics delimit the domain)
     wcode := fun w code flags p v =>
@@ -357,5 +362,75 @@ def machL1 (e : Endian) (ww rw : Nat) (bitReader strict checks : Bool) (cap : Op
           | .ok _ => RefW.put w bits bits.length
           | r => r)
       | _, _ => none }
+
+
+/-! ### counting wrappers (C14) -/
+
+/-- the specialised trait impls of the counting wrappers forward these default methods whole -/
+def forwardedLen (code flags : String) (p : Nat) : Option (Nat → Nat) :=
+  match code, flags with
+  | "gamma", "d" => some lenGammaD
+  | "delta", "d" => some lenDeltaD
+  | "zeta3", "d" => some (fun v => lenZetaD v 3)
+  | "zeta", "d" => some (fun v => lenZetaD v p)
+  | _, _ => none
+
+/-- `CountBitWriter` / `CountBitReader` around the machines of `M` (model of the code) -/
+def machCount {ω ρ} (M : Mach ω ρ) : Mach (CountW ω) (CountR ρ) :=
+  let wi := CountW.impl M.wi
+  let ri := CountR.impl M.ri
+  { e := M.e, checks := M.checks, wi := wi, ri := ri,
+    pos := fun r => M.pos r.inner,
+    seek := fun r p => (M.seek r.inner p).map fun i => { r with inner := i },
+    dump := fun w => M.dump w.inner,
+    mkReader := fun bytes => { inner := M.mkReader bytes },
+    -- the wrappers do not override the bulk copies: the generic loop runs through them
+    copyTo := fun r w n => copyGeneric ri wi (n / 64 + 2) r w n,
+    copyFrom := fun w r n => copyGeneric ri wi (n / 64 + 2) r w n,
+    noOneAhead := fun r => M.noOneAhead r.inner,
+    ioChunk := M.ioChunk,
+    stat := fun w r => s!"bw={w.bitsWritten} br={r.bitsRead}",
+    rcode := fun r code flags p =>
+      match forwardedLen code flags p, readProg M.e code flags p with
+      | some len, some prog => some (CountR.forward M.ri prog len r)
+      | none, some prog => some (prog.run ri r)
+      | _, none => none,
+    wcode := fun w code flags p v =>
+      match forwardedLen code flags p, writeProg M.e M.checks code flags p v with
+      | some _, some prog => some (CountW.forward M.wi prog w)
+      | none, some prog => some (prog.run wi w)
+      | _, none => none }
+
+/-- reference for the counting wrappers: values, bits and positions are those of the bare
+    reference machines; the write counter is the number of bits handed to write operations
+    (padding added by a flush is not written by the caller), the read counter is the distance
+    travelled by the reference cursor. -/
+def machCountRef (M : Mach RefW RefR) : Mach (CountW RefW) (CountR RefR) :=
+  let lift (r : Res (Nat × RefW)) (w : CountW RefW) (isFlush : Bool) : Res (Nat × CountW RefW) :=
+    r.map fun (k, i) => (k, { inner := i, bitsWritten := if isFlush then w.bitsWritten else w.bitsWritten + k })
+  let wi : WImpl (CountW RefW) :=
+    { writeBits := fun w v n => lift (M.wi.writeBits w.inner v n) w false,
+      writeUnary := fun w x => lift (M.wi.writeUnary w.inner x) w false,
+      flush := fun w => lift (M.wi.flush w.inner) w true }
+  let ri : RImpl (CountR RefR) :=
+    { readBits := fun r n => (M.ri.readBits r.inner n).map fun (v, i) => (v, { r with inner := i }),
+      peekBits := fun r n => (M.ri.peekBits r.inner n).map fun (v, i) => (v, { r with inner := i }),
+      skipAfterPeek := fun r n => { r with inner := M.ri.skipAfterPeek r.inner n },
+      skipBits := fun r n => (M.ri.skipBits r.inner n).map fun i => { r with inner := i },
+      readUnary := fun r => (M.ri.readUnary r.inner).map fun (v, i) => (v, { r with inner := i }) }
+  { e := M.e, checks := M.checks, wi := wi, ri := ri,
+    pos := fun r => M.pos r.inner,
+    seek := fun r p => (M.seek r.inner p).map fun i => { r with inner := i },
+    dump := fun w => M.dump w.inner,
+    mkReader := fun bytes => { inner := M.mkReader bytes },
+    copyTo := fun r w n => (M.copyTo r.inner w.inner n).map fun (ri', wi') =>
+      ({ r with inner := ri' }, { inner := wi', bitsWritten := w.bitsWritten + n }),
+    copyFrom := fun w r n => (M.copyFrom w.inner r.inner n).map fun (ri', wi') =>
+      ({ r with inner := ri' }, { inner := wi', bitsWritten := w.bitsWritten + n }),
+    noOneAhead := fun r => M.noOneAhead r.inner,
+    ioChunk := M.ioChunk,
+    stat := fun w r => s!"bw={w.bitsWritten} br={r.inner.pos}",
+    rcode := fun r code flags p => (M.rcode r.inner code flags p).map fun x => x.map fun (v, i) => (v, { r with inner := i }),
+    wcode := fun w code flags p v => (M.wcode w.inner code flags p v).map fun x => lift x w false }
 
 end Dsi
